@@ -319,24 +319,35 @@ theorem rt (W : World) (env : Env) : (v : Val) → RT W env v
       · simp at hw
   | .list xs => fun hwf hok henv => by
       obtain ⟨vs, he, hp, _⟩ := rtL W env xs (by simpa [wf] using hwf) (by simpa [valOK] using hok)
-        (by simpa [render, PyExpr.refs, emptyRefs] using henv)
+        (by simpa [render, PyExpr.refs, arrRefs] using henv)
       exact ⟨.list vs, by simp [render, eval, he], by simp [pyEq, hp], by simp [hashable]⟩
   | .tuple xs => fun hwf hok henv => by
       obtain ⟨vs, he, hp, hh⟩ := rtL W env xs (by simpa [wf] using hwf) (by simpa [valOK] using hok)
-        (by simpa [render, PyExpr.refs, emptyRefs] using henv)
+        (by simpa [render, PyExpr.refs, arrRefs] using henv)
       exact ⟨.tuple vs, by simp [render, eval, he], by simp [pyEq, hp], by simpa [hashable] using hh⟩
-  | .set frozen xs => fun _ hok henv => by
-      have hx : xs = [] := by simpa [valOK] using hok
-      subst hx
+  | .set frozen xs => fun hwf hok henv => by
+      have hok' : hashableL xs = true ∧ valOKL W xs = true := by simpa [valOK] using hok
       cases frozen
-      · have hres : resolve W env [cs!"set"] = .ok (bref cs!"set") :=
-          henv ([cs!"set"], setT) (by simp [render, renderL, PyExpr.refs, emptyRefs])
-        exact ⟨.set false [], by simp [render, renderL, eval, evalL, evalEmptySet, hres],
-          by simp [pyEq, pyEqL], by simp [hashable]⟩
-      · have hres : resolve W env [cs!"frozenset"] = .ok (bref cs!"frozenset") :=
-          henv ([cs!"frozenset"], frozensetT) (by simp [render, renderL, PyExpr.refs, emptyRefs])
-        exact ⟨.set true [], by simp [render, renderL, eval, evalL, evalEmptySet, hres],
-          by simp [pyEq, pyEqL], by simp [hashable, hashableL]⟩
+      · -- `set()` or a set display
+        cases xs with
+        | nil =>
+          have hres : resolve W env [cs!"set"] = .ok setT :=
+            henv ([cs!"set"], setT) (by simp [render, renderL, PyExpr.refs, arrRefs])
+          exact ⟨.set false [], by simp [render, renderL, eval, hres], by simp [pyEq, pyEqL], by simp [hashable]⟩
+        | cons x xs =>
+          obtain ⟨vs, he, hp, hh⟩ := rtL W env (x :: xs) (by simpa [wf] using hwf) hok'.2
+            (by simpa [render, PyExpr.refs, arrRefs, renderL] using henv)
+          refine ⟨.set false vs, ?_, by simp [pyEq, hp], by simp [hashable]⟩
+          simp only [renderL] at he
+          simp [render, renderL, eval, he, hh hok'.1]
+      · -- `frozenset()` or `frozenset({…})`
+        have hres : resolve W env [cs!"frozenset"] = .ok frozensetT :=
+          henv ([cs!"frozenset"], frozensetT) (by simp [render, PyExpr.refs, arrRefs])
+        obtain ⟨vs, he, hp, hh⟩ := rtL W env xs (by simpa [wf] using hwf) hok'.2
+          (fun pc hpc => henv pc (by simp [render, PyExpr.refs, arrRefs, hpc]))
+        refine ⟨.set true vs, ?_, by simp [pyEq, hp], ?_⟩
+        · simp [render, eval, hres, he, hh hok'.1]
+        · intro _; simp [hashable, hh hok'.1]
   | .dict kvs => fun hwf hok henv => by
       obtain ⟨ps, he, hp, hh⟩ := rtKV W env kvs (by simpa [wf] using hwf) (by simpa [valOK] using hok)
         (by simpa [render, PyExpr.refs] using henv)
@@ -532,10 +543,10 @@ theorem refs_sub_types : (e : PyExpr) → ∀ pc ∈ e.refs, pc.2 ∈ e.types
       simp only [PyExpr.types, List.mem_cons]
       rcases h with h | h
       · left
-        unfold emptyRefs at h
-        split at h
-        · cases k <;> simp at h <;> simp [h, ArrKind.type]
-        · simp at h
+        unfold arrRefs at h
+        cases k <;> simp at h
+        · obtain ⟨_, h⟩ := h; simp [h, ArrKind.type]
+        · simp [h, ArrKind.type]
       · exact Or.inr (refsL_sub_types xs pc h)
   | .dict kvs, pc, h => by
       simp only [PyExpr.refs] at h
@@ -645,21 +656,30 @@ theorem refs_good (W : World) : (v : Val) → RefsGood W v
         simpa [wf] using hwf
       exact ⟨rfl, hw.1.2, Or.inl hw.2⟩
   | .list xs => fun hwf hok pc h => by
-      simp only [render, PyExpr.refs, emptyRefs] at h
+      simp only [render, PyExpr.refs, arrRefs] at h
       exact refs_goodL W xs (by simpa [wf] using hwf) (by simpa [valOK] using hok) pc (by simpa using h)
   | .tuple xs => fun hwf hok pc h => by
-      simp only [render, PyExpr.refs, emptyRefs] at h
+      simp only [render, PyExpr.refs, arrRefs] at h
       exact refs_goodL W xs (by simpa [wf] using hwf) (by simpa [valOK] using hok) pc (by simpa using h)
-  | .set frozen xs => fun _ hok pc h => by
-      have hx : xs = [] := by simpa [valOK] using hok
-      subst hx
-      cases frozen
-      · simp [render, renderL, PyExpr.refs, emptyRefs, refsL] at h
-        subst h
-        exact ⟨rfl, reachable_single W _ _, Or.inr ⟨cs!"set", rfl, set_builtin.1⟩⟩
-      · simp [render, renderL, PyExpr.refs, emptyRefs, refsL] at h
-        subst h
-        exact ⟨rfl, reachable_single W _ _, Or.inr ⟨cs!"frozenset", rfl, set_builtin.2⟩⟩
+  | .set frozen xs => fun hwf hok pc h => by
+      have hok' : hashableL xs = true ∧ valOKL W xs = true := by simpa [valOK] using hok
+      simp only [render, PyExpr.refs, List.mem_append] at h
+      rcases h with h | h
+      · cases frozen
+        · by_cases hx : xs.isEmpty = true
+          · simp [arrRefs, renderL, hx] at h
+            have hx' : xs = [] := by simpa using hx
+            subst hx'
+            simp [renderL] at h
+            subst h
+            exact ⟨rfl, reachable_single W _ _, Or.inr ⟨cs!"set", rfl, set_builtin.1⟩⟩
+          · cases xs with
+            | nil => simp at hx
+            | cons x xs => simp [arrRefs, renderL] at h
+        · simp [arrRefs] at h
+          subst h
+          exact ⟨rfl, reachable_single W _ _, Or.inr ⟨cs!"frozenset", rfl, set_builtin.2⟩⟩
+      · exact refs_goodL W xs (by simpa [wf] using hwf) hok'.2 pc h
   | .dict kvs => fun hwf hok pc h => by
       simp only [render, PyExpr.refs] at h
       exact refs_goodKV W kvs (by simpa [wf] using hwf) (by simpa [valOK] using hok) pc h
@@ -737,9 +757,9 @@ theorem no_risk (W : World) : (v : Val) → NoRisk W v
       simp only [render, PyExpr.syntaxRisk]
       exact no_riskL W xs (by simpa [valOK] using hok)
   | .set frozen xs => fun hok => by
-      have hx : xs = [] := by simpa [valOK] using hok
-      subst hx
-      simp [render, renderL, PyExpr.syntaxRisk, riskL]
+      have hok' : hashableL xs = true ∧ valOKL W xs = true := by simpa [valOK] using hok
+      simp only [render, PyExpr.syntaxRisk]
+      exact no_riskL W xs hok'.2
   | .dict kvs => fun hok => by
       simp only [render, PyExpr.syntaxRisk]
       exact no_riskKV W kvs (by simpa [valOK] using hok)
@@ -767,49 +787,130 @@ theorem no_riskKV (W : World) : (kvs : List (Val × Val)) → valOKKV W kvs = tr
 end
 
 
-/-! ### `valOK` = the property's domain minus non-empty sets -/
+/-! ### `valOK` is the property's domain -/
 
 mutual
-theorem valOK_of_dom_setFree (W : World) : (v : Val) → domOK W v = true → setFree v = true → valOK W v = true
-  | .none, _, _ => by simp [valOK]
-  | .bool _, _, _ => by simp [valOK]
-  | .int _, _, _ => by simp [valOK]
-  | .str _ _, _, _ => by simp [valOK]
-  | .bytes _ _, _, _ => by simp [valOK]
-  | .qname _, _, _ => by simp [valOK]
-  | .enum _ _, _, _ => by simp [valOK]
-  | .float _ _, hd, _ => by simpa [valOK, domOK] using hd
-  | .opaque _ _ _ _, hd, _ => by simpa [valOK, domOK] using hd
-  | .set _ _, _, hc => by simpa [valOK, setFree] using hc
-  | .tuple xs, hd, hc => by
-      simp only [valOK]
-      exact valOKL_of_dom_setFree W xs (by simpa [domOK] using hd) (by simpa [setFree] using hc)
-  | .list xs, hd, hc => by
-      simp only [valOK]
-      exact valOKL_of_dom_setFree W xs (by simpa [domOK] using hd) (by simpa [setFree] using hc)
-  | .dict kvs, hd, hc => by
-      simp only [valOK]
-      exact valOKKV_of_dom_setFree W kvs (by simpa [domOK] using hd) (by simpa [setFree] using hc)
-  | .model c attrs, hd, hc => by
+theorem valOK_of_dom (W : World) : (v : Val) → domOK W v = true → valOK W v = true
+  | .none, _ => by simp [valOK]
+  | .bool _, _ => by simp [valOK]
+  | .int _, _ => by simp [valOK]
+  | .str _ _, _ => by simp [valOK]
+  | .bytes _ _, _ => by simp [valOK]
+  | .qname _, _ => by simp [valOK]
+  | .enum _ _, _ => by simp [valOK]
+  | .float _ _, hd => by simpa [valOK, domOK] using hd
+  | .opaque _ _ _ _, hd => by simpa [valOK, domOK] using hd
+  | .set _ xs, hd => by
       simp only [domOK, Bool.and_eq_true] at hd
       simp only [valOK, Bool.and_eq_true]
-      exact ⟨hd.1, valOKL_of_dom_setFree W attrs hd.2 (by simpa [setFree] using hc)⟩
-theorem valOKL_of_dom_setFree (W : World) : (xs : List Val) → domOKL W xs = true → setFreeL xs = true →
-    valOKL W xs = true
-  | [], _, _ => by simp [valOKL]
-  | x :: xs, hd, hc => by
+      exact ⟨hd.1, valOKL_of_dom W xs hd.2⟩
+  | .tuple xs, hd => by
+      simp only [valOK]
+      exact valOKL_of_dom W xs (by simpa [domOK] using hd)
+  | .list xs, hd => by
+      simp only [valOK]
+      exact valOKL_of_dom W xs (by simpa [domOK] using hd)
+  | .dict kvs, hd => by
+      simp only [valOK]
+      exact valOKKV_of_dom W kvs (by simpa [domOK] using hd)
+  | .model c attrs, hd => by
+      simp only [domOK, Bool.and_eq_true] at hd
+      simp only [valOK, Bool.and_eq_true]
+      exact ⟨hd.1, valOKL_of_dom W attrs hd.2⟩
+theorem valOKL_of_dom (W : World) : (xs : List Val) → domOKL W xs = true → valOKL W xs = true
+  | [], _ => by simp [valOKL]
+  | x :: xs, hd => by
       have hd' : domOK W x = true ∧ domOKL W xs = true := by simpa [domOKL] using hd
-      have hc' : setFree x = true ∧ setFreeL xs = true := by simpa [setFreeL] using hc
-      simp [valOKL, valOK_of_dom_setFree W x hd'.1 hc'.1, valOKL_of_dom_setFree W xs hd'.2 hc'.2]
-theorem valOKKV_of_dom_setFree (W : World) : (kvs : List (Val × Val)) → domOKKV W kvs = true →
-    setFreeKV kvs = true → valOKKV W kvs = true
-  | [], _, _ => by simp [valOKKV]
-  | (k, v) :: r, hd, hc => by
+      simp [valOKL, valOK_of_dom W x hd'.1, valOKL_of_dom W xs hd'.2]
+theorem valOKKV_of_dom (W : World) : (kvs : List (Val × Val)) → domOKKV W kvs = true → valOKKV W kvs = true
+  | [], _ => by simp [valOKKV]
+  | (k, v) :: r, hd => by
       have hd' : ((hashable k = true ∧ domOK W k = true) ∧ domOK W v = true) ∧ domOKKV W r = true := by
         simpa [domOKKV] using hd
-      have hc' : (setFree k = true ∧ setFree v = true) ∧ setFreeKV r = true := by simpa [setFreeKV] using hc
-      simp [valOKKV, hd'.1.1.1, valOK_of_dom_setFree W k hd'.1.1.2 hc'.1.1,
-        valOK_of_dom_setFree W v hd'.1.2 hc'.1.2, valOKKV_of_dom_setFree W r hd'.2 hc'.2]
+      simp [valOKKV, hd'.1.1.1, valOK_of_dom W k hd'.1.1.2, valOK_of_dom W v hd'.1.2, valOKKV_of_dom W r hd'.2]
 end
+
+/-! ### QName text with lone surrogates: what `literal_value` writes is read back -/
+
+theorem hexVal_hexDigit : ∀ k : Fin 16, hexVal (hexDigit k.val) = some k.val := by decide
+
+/-- the `Char` escapes, decoded by the code-point scanner -/
+theorem decodeCp_jsonEscChar (c : Char) (r : Str) :
+    decodeCp .normal (jsonEscChar c ++ r) = (decodeCp .normal r).map (c.toNat :: ·) := by
+  unfold jsonEscChar
+  by_cases h1 : c = '"'
+  · subst h1; simp [decodeCp, hardEsc, simpleEsc, rawBad]
+  by_cases h2 : c = '\\'
+  · subst h2; simp [decodeCp, hardEsc, simpleEsc, rawBad]
+  by_cases h3 : c = '\n'
+  · subst h3; simp [decodeCp, hardEsc, simpleEsc, rawBad]
+  by_cases h4 : c = '\r'
+  · subst h4; simp [decodeCp, hardEsc, simpleEsc, rawBad]
+  by_cases h5 : c = '\t'
+  · subst h5; simp [decodeCp, hardEsc, simpleEsc, rawBad]
+  by_cases h6 : c.toNat = 8
+  · have : c = Char.ofNat 8 := by rw [← h6, Char.ofNat_toNat]
+    subst this; simp [decodeCp, hardEsc, simpleEsc, rawBad]
+  by_cases h7 : c.toNat = 12
+  · have : c = Char.ofNat 12 := by rw [← h7, Char.ofNat_toNat]
+    subst this; simp [decodeCp, hardEsc, simpleEsc, rawBad]
+  by_cases h8 : c.toNat < 32
+  · obtain ⟨hx1, hx2, _⟩ := hex_low ⟨c.toNat, h8⟩
+    simp only at hx1 hx2
+    have h0 : hexVal '0' = some 0 := by decide
+    have hv2 : c.toNat / 16 * 16 + c.toNat % 16 = c.toNat := by omega
+    simp [h1, h2, h3, h4, h5, h6, h7, h8, decodeCp, hx1, hx2, h0, hv2]
+  · have hraw : rawBad c = false := by
+      have : c.toNat ≠ 0 := by omega
+      simp [rawBad, h1, h3, h4, this]
+    simp [h1, h2, h3, h4, h5, h6, h7, h8, decodeCp, hraw]
+
+theorem toNat_ofNat_of_scalar {n : Nat} (hn : n < 0x110000) (hs : isSurrogate n = false) :
+    (Char.ofNat n).toNat = n := by
+  have hv : n.isValidChar := by
+    unfold Nat.isValidChar
+    simp [isSurrogate] at hs
+    omega
+  simp [Char.ofNat, hv, Char.toNat, Char.ofNatAux]
+
+/-- one code point: what `literal_value` writes for it, followed by anything,
+decodes to that code point followed by the decoding of the rest -/
+theorem decodeCp_escapeCp (n : Nat) (hn : n < 0x110000) (r : Str) :
+    decodeCp .normal (escapeCp n ++ r) = (decodeCp .normal r).map (n :: ·) := by
+  unfold escapeCp
+  by_cases hs : isSurrogate n = true
+  · have hlo : 0xD800 ≤ n ∧ n ≤ 0xDFFF := by simpa [isSurrogate] using hs
+    have h3 := hexVal_hexDigit ⟨n / 4096, by omega⟩
+    have h2 := hexVal_hexDigit ⟨n / 256 % 16, by omega⟩
+    have h1 := hexVal_hexDigit ⟨n / 16 % 16, by omega⟩
+    have h0 := hexVal_hexDigit ⟨n % 16, by omega⟩
+    simp only at h3 h2 h1 h0
+    have hv : ((n / 4096 * 16 + n / 256 % 16) * 16 + n / 16 % 16) * 16 + n % 16 = n := by omega
+    simp [hs, decodeCp, h3, h2, h1, h0, hv]
+  · have hns : isSurrogate n = false := by simpa using hs
+    simp only [hns, Bool.false_eq_true, if_false]
+    rw [decodeCp_jsonEscChar, toNat_ofNat_of_scalar hn hns]
+
+theorem decodeCp_qnameLitBody : ∀ (cps : List Nat), (∀ n ∈ cps, n < 0x110000) →
+    decodeCp .normal (qnameLitBody cps) = some cps
+  | [], _ => rfl
+  | n :: r, h => by
+      rw [qnameLitBody, decodeCp_escapeCp n (h n (by simp)), decodeCp_qnameLitBody r (fun m hm => h m (by simp [hm]))]
+      rfl
+
+/-- for a text without surrogates (a `List Char`) the repaired `literal_value`
+writes exactly what `json.dumps` writes -/
+theorem qnameLitBody_scalar : ∀ (t : Str), qnameLitBody (t.map Char.toNat) = jsonBody t
+  | [] => rfl
+  | c :: r => by
+      have hns : isSurrogate c.toNat = false := by
+        have := c.valid
+        simp only [isSurrogate]
+        rcases this with h | h
+        · have : c.toNat < 0xD800 := h
+          simp; omega
+        · have : 0xDFFF < c.toNat := h.1
+          simp; omega
+      simp [qnameLitBody, jsonBody, escapeCp, hns, Char.ofNat_toNat, qnameLitBody_scalar r]
 
 end Xs.Code
